@@ -118,7 +118,7 @@ def heavyFns : List String :=
 /-- sites where a geometry of the wrong kind, or an empty / degenerate one, is indexed or asserted -/
 def geometrySites : List String :=
   ["b6.Geo.", "b6.area.", "b6.InvalidGeometry.", "b6.InvalidArea.", "b6.wrappedPhysicalFeature.", "b6.Centroid",
-   "b6.multiPolygon", "geojson.", "api/functions.distanceToPointMeters", "api/functions.interpolate",
+   "b6.multiPolygon", "b6.polyline", "b6.polygon", "geojson.", "api/functions.distanceToPointMeters", "api/functions.interpolate",
    "api/functions.Sightline", "api/functions.capPolygon", "api/functions.sightline", "ingest.areaFeature."]
 
 /-- functions that take or make geometry -/
@@ -132,6 +132,11 @@ def geometryFns : List String :=
 /-- lookups that answer nil for what is not in the world -/
 def nilSources : List String :=
   ["find-feature", "find-area", "find-relation", "find-collection", "closest", "evaluate-feature", "entrance-approach"]
+
+/-- the VM itself and the argument conversion: a nil dereference there is never the `nil-feature` class -/
+def vmCoreSites : List String :=
+  ["api.(*VM)", "api.goCall", "api.(*goCall)", "api.(*lambdaCall)", "api.(*partialCall)", "api.Convert", "api.convert",
+   "api.Evaluate", "api.newVM", "api.compile", "api.(*compilation)", "api.Simplify", "api.simplify"]
 
 /-- iterators that panic when an item has no literal form -/
 def unliterableSites : List String := ["b6.arrayIterator.", "ingest.collectionFeatureIterator.", "ingest.(*collectionFeatureIterator)."]
@@ -147,8 +152,8 @@ def classOf (e : Expr) (answer site kind : String) : Option String :=
   else if site == "b6.Typed.Compile" then
     if hasLit e ["query"] || mentionsAny e ["typed"] then some "typed-query-type" else none
   else if site == "api.(*VM).execute" && kind == "explicit" then
-    if e.hasOpenLambda then some "closure-registers" else none
-  else if kind == "nil" && site.startsWith "api/functions." then
+    if !e.regSafe then some "closure-registers" else none
+  else if kind == "nil" && (site.startsWith "api/functions." || site.startsWith "api." || site.startsWith "b6.") && !anyPrefix site vmCoreSites then
     if mentionsAny e nilSources || hasLit e ["nil"] then some "nil-feature" else none
   else none
 
